@@ -108,6 +108,7 @@ type sim struct {
 
 	peers    []*peerSim
 	events   []*event
+	held     []*event // status messages the topology gate keeps back
 	seq      int
 	start    time.Time
 	lastTopo time.Duration
@@ -166,36 +167,33 @@ func (s *sim) storeHeight() uint64 { return s.syncer.Chain.BlockStore.Height() }
 // for (nothing changed for 300 ms; requesters poll every 100 ms). Removing a
 // peer then hands all its heights to the single remaining one.
 
-func (s *sim) eligibleOthers(p *peerSim) (n int, huge bool) {
+func (s *sim) eligibleOthers(p *peerSim) (n int) {
 	h0 := s.storeHeight() + 1
 	for _, q := range s.peers {
 		if q != p && q.connected && q.announced && q.claim >= h0 {
 			n++
-			if q.huge {
-				huge = true
-			}
 		}
 	}
 	return
 }
 
-func (s *sim) mayAnnounce(p *peerSim, claim uint64, huge bool) bool {
+func (s *sim) mayAnnounceQuiet(p *peerSim, claim uint64) bool {
 	h0 := s.storeHeight() + 1
 	if claim < h0 {
 		return true
 	}
-	n, otherHuge := s.eligibleOthers(p)
-	if n == 0 {
-		return true
-	}
-	if huge || otherHuge || n >= 2 {
+	n := s.eligibleOthers(p)
+	return n == 0 || (n == 1 && s.now()-s.lastTopo >= 300*time.Millisecond)
+}
+
+func (s *sim) mayAnnounce(p *peerSim, claim uint64) bool {
+	if !s.mayAnnounceQuiet(p, claim) {
 		return false
 	}
-	if s.now()-s.lastTopo >= 300*time.Millisecond {
+	if claim >= s.storeHeight()+1 && s.eligibleOthers(p) == 1 {
 		s.c.Probe("second-eligible-peer-joins")
-		return true
 	}
-	return false
+	return true
 }
 
 // ---------------------------------------------------------------- peers
@@ -261,7 +259,7 @@ func (s *sim) drawAttack(p *peerSim) {
 	L := uint64(s.cfg.L)
 	h0 := s.storeHeight() + 1
 	a := &attack{cache: map[uint64]*blk{}}
-	a.typ = 1 + t.Pick(6, 6, 3, 1, 2, 1, 1, 2, 1)
+	a.typ = 1 + t.Pick(6, 8, 3, 1, 2, 1, 1, 2, 1)
 	span := uint64(4)
 	if h0+span > L {
 		if L > h0 {
@@ -302,7 +300,9 @@ func (s *sim) drawAttack(p *peerSim) {
 	if (a.typ == atAltFirst || a.typ == atFork) && a.f >= 1 && a.f <= L && (len(s.w.alts[a.f]) == 0 || t.Bool(2, 5)) {
 		// no executable alternative was produced for this height (or for variety):
 		// a header-tweaked copy of the canonical block
-		s.w.alts[a.f] = append(s.w.alts[a.f], s.w.fabricateFirst(a.f, t.Int(firstVariants)))
+		x := s.w.fabricateFirst(a.f, t.Int(firstVariants))
+		s.w.alts[a.f] = append(s.w.alts[a.f], x)
+		a.cache[a.f] = x
 	}
 	p.att = a
 	s.note("%s plans %s at %d", p.id, atNames[a.typ], a.f)
@@ -605,6 +605,27 @@ func (s *sim) disconnect(p *peerSim, why string) {
 	s.afterDisconnect(p)
 }
 
+// releaseHeld re-queues the held-back status messages the topology gate now lets through.
+func (s *sim) releaseHeld() {
+	if len(s.held) == 0 {
+		return
+	}
+	kept := s.held[:0]
+	for _, e := range s.held {
+		p := s.peers[e.peer]
+		if !p.connected || e.sess != p.sessions {
+			continue
+		}
+		if s.mayAnnounceQuiet(p, e.claim) {
+			e.at = s.now()
+			s.schedule(e)
+			continue
+		}
+		kept = append(kept, e)
+	}
+	s.held = kept
+}
+
 // deliver performs one due event.
 func (s *sim) deliver(e *event) bool {
 	p := s.peers[e.peer]
@@ -620,13 +641,17 @@ func (s *sim) deliver(e *event) bool {
 		if !p.connected || e.sess != p.sessions {
 			return true
 		}
-		if !s.mayAnnounce(p, e.claim, false) {
-			if e.tries < 25 {
-				e.tries++
-				e.at = s.now() + time.Duration(200+150*e.tries)*time.Millisecond
-				s.schedule(e)
-				s.c.Probe("status-held-back")
+		if !s.mayAnnounce(p, e.claim) {
+			// kept until the topology allows it (see releaseHeld); a newer
+			// status of the same peer replaces an older one
+			s.c.Probe("status-held-back")
+			kept := s.held[:0]
+			for _, h := range s.held {
+				if h.peer != e.peer {
+					kept = append(kept, h)
+				}
 			}
+			s.held = append(kept, e)
 			return true
 		}
 		if !p.announced || e.claim > p.claim {
@@ -706,6 +731,7 @@ func (s *sim) run(until time.Duration, target uint64) bool {
 		if !s.settle() {
 			return false
 		}
+		s.releaseHeld()
 	}
 }
 
@@ -912,6 +938,7 @@ func runSync(c *kernel.Ctx, w *world) {
 			}
 		}
 		s.events = s.events[:0]
+		s.held = nil
 		for _, p := range s.peers {
 			s.disconnect(p, "calm phase")
 		}
